@@ -404,3 +404,86 @@ def validate_total(check: Check, repo: Repo, mr: MayRaise) -> None:
             check.ob(rule, m, f"{ci.name}.{name}", not bad,
                      "no explicit raise escapes" if not bad else f"{sorted(bad)} can escape validate(): {list(bad.values())[0][:160]}")
     check.floor(rule, 60, "rule handlers")
+
+
+# -- partial operations on the validation path ------------------------------------
+
+# constant-index reads whose bound is an invariant of a data structure built elsewhere:
+# (file suffix, function, subscript text) -> reason.  One named construct each.
+INDEX_INVARIANTS = {
+    ("validation/rules/known_argument_names.py", "KnownArgumentNamesRule.enter_argument", "args[3]"):
+        "visit() calls every handler with (node, key, parent, path, ancestors): *args has 4 entries",
+    ("validation/rules/known_argument_names.py", "KnownArgumentNamesRule.enter_argument", "args[3][-1]"):
+        "an ArgumentNode is only reached through the arguments tuple of its field/directive: ancestors is non-empty",
+    ("validation/rules/known_directives.py", "get_directive_location_for_ast_path", "ancestors[-1]"):
+        "a DirectiveNode is only reached through the directives tuple of its owner: ancestors ends with (owner, tuple)",
+    ("validation/rules/known_directives.py", "get_directive_location_for_ast_path", "ancestors[-3]"):
+        "arm taken only for input value / variable definitions, which sit in a tuple of their own parent node below the document",
+    ("validation/rules/overlapping_fields_can_be_merged.py", "subfield_conflicts", "conflict[0]"):
+        "Conflict is the fixed 3-tuple (reason, fields1, fields2) built only by find_conflict/subfield_conflicts",
+    ("validation/rules/overlapping_fields_can_be_merged.py", "subfield_conflicts", "conflict[1]"):
+        "Conflict is a fixed 3-tuple",
+    ("validation/rules/overlapping_fields_can_be_merged.py", "subfield_conflicts", "conflict[2]"):
+        "Conflict is a fixed 3-tuple",
+    ("validation/rules/single_field_subscriptions.py", "SingleFieldSubscriptionsRule.enter_operation_definition", "to_nodes(field_details_list)[0]"):
+        "collect_fields only creates a group when it appends its first member: groups are non-empty",
+    ("pyutils/suggestion_list.py", "LexicalDistance.measure", "rows[0]"):
+        "self._rows is the 3-element list literal built in __init__",
+}
+
+
+def _const_index(sub: ast.Subscript) -> bool:
+    sl = sub.slice
+    if isinstance(sl, ast.Constant) and isinstance(sl.value, int) and not isinstance(sl.value, bool):
+        return True
+    return isinstance(sl, ast.UnaryOp) and isinstance(sl.op, ast.USub) and isinstance(sl.operand, ast.Constant) and isinstance(sl.operand.value, int)
+
+
+def index_guard(check: Check, repo: Repo, mods: list[Module], rule: str = "INDEX-GUARD") -> None:
+    from rules.bounds import FlowCache, index_reads, prove_index
+
+    check.rule(
+        rule,
+        "on the validation path every read at a constant position (xs[0], xs[-1], xs[-3] ...) is dominated "
+        "by facts that entail the position exists (length tests, truthiness, a push, boolean locals holding "
+        "such a test), sits inside a handler for IndexError, or is one of the named data-structure "
+        "invariants listed in INDEX_INVARIANTS; an unguarded read turns a malformed document into an "
+        "IndexError out of validate()",
+    )
+    flows = FlowCache()
+    for m in mods:
+        for sub in index_reads(m.tree):
+            if not _const_index(sub):
+                continue
+            ok, why = prove_index(sub, flows)
+            if not ok:
+                key = next((k for k in INDEX_INVARIANTS if m.rel.endswith(k[0]) and qualname_of(sub) == k[1] and unparse(sub) == k[2]), None)
+                if key is not None:
+                    ok, why = True, "invariant: " + INDEX_INVARIANTS[key]
+            check.ob(rule, sub, node_text(sub, 60), ok, why)
+
+
+STOP_CATCHERS = {"StopIteration", "Exception", "BaseException"}
+
+
+def next_total(check: Check, repo: Repo, mods: list[Module], exempt: dict[tuple[str, str], str] | None = None, rule: str = "NEXT-TOTAL") -> None:
+    check.rule(
+        rule,
+        "every one-argument next(...) call has a default or sits in a try whose handler covers "
+        "StopIteration: a search over a collection that can lack the element (a meta field is not in "
+        "parent_type.fields) otherwise raises StopIteration out of the visitor",
+    )
+    exempt = exempt or {}
+    for m in mods:
+        for c in ast.walk(m.tree):
+            if not (isinstance(c, ast.Call) and isinstance(c.func, ast.Name) and c.func.id == "next"):
+                continue
+            if len(c.args) >= 2:
+                check.ob(rule, c, node_text(c, 60), True, "has a default", nontrivial=False)
+                continue
+            t = covered_by_try(c, STOP_CATCHERS)
+            why = exempt.get((m.rel.split("src/graphql/")[-1], qualname_of(c)))
+            ok = t is not None or why is not None
+            check.ob(rule, c, node_text(c, 60), ok,
+                     f"inside try/except covering StopIteration (line {t.lineno})" if t is not None else
+                     (f"exempt: {why}" if why else "no default and no handler for StopIteration"))
